@@ -18,7 +18,7 @@ Dts == {"none", "pos"}
 Caches == {"none", "zero", "one", "many"}
 Levies == {"none", "space-time", "davie", "foster", "bogus"}
 SizeSrc == {"size", "W", "WH", "size+W", "mismatch", "nothing", "intW"}
-Shapes == {"scalar", "batch", "matrix"}
+Shapes == {"scalar", "batch", "matrix", "cube"}
 Ends == {"on", "off"}                          \* t0, t1 multiples of the tolerance, or not (then they straddle zero too)
 
 VARIABLES cfg, stage, outcome
